@@ -48,14 +48,16 @@ class PROP(E2E):
                 req = mb.rnd_req(rng)
                 if mb.spec_req_size(req) > 253 or (proto == "rtu" and not cligen.rtu_supported_req(req)):
                     continue
-                pre = []
-                for _ in range(rng.randrange(1, 3)):
+                pre, pre_frames = [], []
+                slave = rng.randrange(256)
+                for j in range(rng.randrange(1, 3)):
                     preq = mb.rnd_req(rng, rng.choice(["RC", "RHR", "WSR", "WSC", "MWR", "RSI"]))
                     k = rng.randrange(0, len(cligen.frame(proto, 0, 0, mb.spec_req_pdu(preq))))     # the fault hits while this frame is being written
                     mode = rng.choice(["werr", "zero", "abandon"])
                     acc = ("a%d," % k) if k else ""
                     pre.append(cligen.call_op(preq, W=acc + {"werr": "e:TimedOut", "zero": "z", "abandon": "p"}[mode], drop="0" if mode == "abandon" else "-"))
-                yield dict(proto=proto, slave=rng.randrange(256), req=req, reply=("none",), pre=pre)
+                    pre_frames.append(cligen.frame(proto, j, slave, mb.spec_req_pdu(preq)).hex())
+                yield dict(proto=proto, slave=slave, req=req, reply=("none",), pre=pre, pre_frames=pre_frames)
             # ... or after earlier requests were refused by the encoder (PDU > 253 bytes): those transmit nothing and must leave
             # nothing behind, so the new request goes out as exactly its spec frame
             for _ in range(n // 10):
@@ -92,6 +94,15 @@ class PROP(E2E):
         if st == 0:
             res, w = cligen.res_and_w(cligen.split_results(c.impl)[-1])
             want = cligen.frame(m["proto"], m.get("npre", 0), m["slave"], mb.spec_req_pdu(req))
+            if m.get("npre") and not m.get("pre_clean") and m.get("pre_frames"):
+                # what reached the transport over the client's lifetime: every earlier frame whole (its unsent rest goes out ahead of
+                # the new request), then the new request's own spec frame -- exactly once each, in order
+                total = b"".join(cligen.res_and_w(x)[1] for x in cligen.split_results(c.impl))
+                want_total = bytes.fromhex("".join(m["pre_frames"])) + want
+                if total != want_total:
+                    return "after %d call(s) that failed while writing, the transport received %s over the client's lifetime; the requests' frames are %s" % (
+                        m["npre"], total.hex()[:100], want_total.hex()[:100])
+                return None
             if m.get("npre") and not m.get("pre_clean"):
                 return None if w.endswith(want) else "after %d failed call(s) the client wrote ...%s for %s to slave %d; its spec frame is %s" % (
                     m["npre"], w.hex()[-80:], m["req"][:50], m["slave"], want.hex()[:80])
